@@ -1562,6 +1562,31 @@ pub fn c08_largest_first<S: Src>(_s: &mut S) {
 /// success, the inputs actually in the builder are distinct offered UTxOs and cover outputs + minimum fee
 pub fn c08_random_improve<S: Src>(_s: &mut S) {
     let mut failures: Vec<String> = Vec::new();
+    // tokens among the inputs (picked, or already in the builder) while the outputs are plain ADA: the fee top-up must still run
+    for variant in 0..2u8 {
+        for strategy in [CoinSelectionStrategyCIP2::RandomImprove, CoinSelectionStrategyCIP2::RandomImproveMultiAsset] {
+            for _round in 0..20 {
+                let tok = |q: u64| { let mut ma = MultiAsset::new(); ma.set_asset(&ScriptHash::from([7u8; 28]), &AssetName::new(vec![1]).unwrap(), &bn(q)); ma };
+                let mut tb = TransactionBuilder::new(&config(true));
+                if tb.add_output(&TransactionOutput::new(&addr(0, 50), &Value::new(&bn(2_000_000)))).is_err() { continue; }
+                let mut utxos = TransactionUnspentOutputs::new();
+                let mut preset_coin = 0u64;
+                if variant == 0 {
+                    for k in 1..=5u8 { utxos.add(&TransactionUnspentOutput::new(&TransactionInput::new(&TransactionHash::from([k; 32]), 0), &TransactionOutput::new(&addr(1, 4), &Value::new_with_assets(&bn(2_000_000), &tok(1))))); }
+                } else {
+                    let mut own = TxInputsBuilder::new();
+                    preset_coin = 1_500_000;
+                    if own.add_regular_utxo(&TransactionUnspentOutput::new(&TransactionInput::new(&TransactionHash::from([100u8; 32]), 0), &TransactionOutput::new(&addr(1, 4), &Value::new_with_assets(&bn(preset_coin), &tok(25))))).is_err() { continue; }
+                    tb.set_inputs(&own);
+                    for k in 1..=6u8 { utxos.add(&TransactionUnspentOutput::new(&TransactionInput::new(&TransactionHash::from([k; 32]), 0), &TransactionOutput::new(&addr(1, 4), &Value::new(&bn(500_000))))); }
+                }
+                if tb.add_inputs_from(&utxos, strategy).is_err() { continue; }
+                let have: u64 = tb.get_explicit_input().map(|v| u64::from(v.coin())).unwrap_or(0);
+                let need = 2_000_000 + tb.min_fee().map(u64::from).unwrap_or(0);
+                if have < need { failures.push(format!("random-improve with tokens among the inputs (variant {}): selection reported success but the inputs hold {} lovelace (pre-set {}), outputs + minimum fee need {}", variant, have, preset_coin, need)); }
+            }
+        }
+    }
     let sets: [&[u64]; 4] = [&[10_000_000, 10_100_000, 10_150_000], &[10_000_000, 10_100_000, 300_000_000], &[5_000_000, 5_050_000, 5_100_000, 5_020_000], &[10_000_000, 19_000_000, 10_050_000, 2_000_000]];
     for (si, coins) in sets.iter().enumerate() {
         for trial in 0..300 {
